@@ -4,7 +4,7 @@ this file and registry.py by bin/gen_manifest.py."""
 CLAIMS = {}
 NOT_CLAIMED = {}
 # properties whose checks exist but are still being finished / triaged: not claimed until they pass on the tree
-HOLD = {"C04", "C05", "C13", "C18", "C20", "C10"}
+HOLD = set()
 
 SCHED_NOTE = ("Bounded exhaustive: all schedules within the stated preemption / timer / spurious-CAS budgets for the stated small configurations "
               "(thread counts, queue sizes); interleaving is sequentially consistent (weaker memory orders are not explored; a free-running ThreadSanitizer "
@@ -58,3 +58,19 @@ CLAIMS["C14"] = dict(
 import glob as _glob, os as _os
 for _f in sorted(_glob.glob(_os.path.join(_os.path.dirname(_os.path.abspath(__file__)), "claim_*.py"))):
     exec(compile(open(_f).read(), _f, "exec"), {"CLAIMS": CLAIMS, "NOT_CLAIMED": NOT_CLAIMED, "SEQ_NOTE": SEQ_NOTE, "SCHED_NOTE": SCHED_NOTE})
+
+# --- properties that are decided by both engines: the sequential part (sub-agent fragments above) and
+# the multi-threaded part (conc_harness.cc / c06_conc.cc under the scheduler) -----------------------
+_CONC = {
+    "C04": "Engine A adds: two threads operate on ONE span (SetAttribute / AddEvent / End from both, two orders) in every interleaving with <= 3 (thorough 4) preemptions; the exported span must be explained by an order of the calls that is consistent with their call/return order, cut at the first End (brute force over the permutations), and must be exported exactly once.",
+    "C05": "Engine A adds: two threads, each with its own active-span stack (root, Scope, child) through one real TracerProvider in every interleaving with <= 3 (thorough 4) preemptions: each child has its own thread's span as parent and trace, GetCurrentSpan is the thread's own, span ids are distinct and non-zero.",
+    "C06": "Engine A adds: recorder threads racing collector threads on the real MeterProvider / SyncMetricStorage / TemporalMetricStorage with delta and cumulative pull readers, every interleaving with <= 2 (thorough 3) preemptions; values are distinct powers of two so every point identifies the measurements it contains: a delta reader's intervals must partition the measurements, a cumulative reader's collections must be growing supersets ending with everything.",
+    "C10": "Engine A adds: two threads running attach/detach programs (all 25 pairs of 5 programs incl. out-of-order and repeated contexts) in every interleaving with <= 3 (thorough 4) preemptions: each thread observes only its own runtime-context stack.",
+    "C13": "Engine A adds: two threads with different (optionally nested) active spans emitting through one real LoggerProvider in every interleaving with <= 3 (thorough 4) preemptions: every exported record carries its own thread's trace/span ids.",
+}
+for _p, _t in _CONC.items():
+    if _p in CLAIMS:
+        CLAIMS[_p]["engine"] = "seq+sched"
+        CLAIMS[_p]["technique"] = CLAIMS[_p]["technique"] + "; plus stateless model checking of the multi-threaded part on the real code (preemption-bounded exhaustive interleaving exploration with state caching)"
+        CLAIMS[_p]["text"] = CLAIMS[_p]["text"] + " " + _t
+        CLAIMS[_p]["note"] = CLAIMS[_p]["note"] + " For the multi-threaded part: " + SCHED_NOTE
